@@ -25,7 +25,9 @@ var migrations = [dbVersion]MigrationStep{
 		it := txn.NewIterator(badger.DefaultIteratorOptions)
 		defer it.Close()
 		for it.Seek(prefix); it.ValidForPrefix(prefix); it.Next() {
-			key := it.Item().Key()
+			// Key() is only valid until the iterator advances, and the
+			// transaction keeps the key it is given until commit.
+			key := it.Item().KeyCopy(nil)
 			txn.Delete(key)
 		}
 
